@@ -1191,6 +1191,240 @@ def r12(k: Kit) -> None:
               fi.loc(fi.node))
 
 
+def r22(k: Kit) -> None:
+    """The announced packet length is bounded before anything is buffered."""
+    rep = k.rep
+    rep.rule('C10.R22', 'SSHConnection._recv_pkthdr: the 32-bit packet '
+             'length read from the wire is compared with an upper bound '
+             '(raising on the far side) before _recv_packet is installed '
+             'as the handler that buffers that many bytes - the bytes of a '
+             '4 GiB "packet" would all be kept, each arriving chunk copied '
+             'onto the growing buffer (quadratic), before any MAC is '
+             'checked, also before authentication')
+    fi = k.func('connection.SSHConnection._recv_pkthdr')
+    g = k.cfg(fi)
+    inst = [nd for nd, v in k.stores_to(fi, 'self._recv_handler')]
+    rep.floor('C10.R22', 'handler installations', len(inst), 1)
+
+    def bounded(x: Node) -> Optional[bool]:
+        a = x.ast
+        if x.kind != 'atom' or not isinstance(a, ast.Compare) or \
+                len(a.ops) != 1:
+            return None
+        l, r = a.left, a.comparators[0]
+        lp = 'self._pktlen' in names_read(l) or 'pktlen' in names_read(l)
+        rp = 'self._pktlen' in names_read(r) or 'pktlen' in names_read(r)
+        if lp == rp:
+            return None
+        op = a.ops[0]
+        if (lp and isinstance(op, (ast.Gt, ast.GtE))) or \
+                (rp and isinstance(op, (ast.Lt, ast.LtE))):
+            return False         # within the bound on the false edge
+        if (lp and isinstance(op, (ast.Lt, ast.LtE))) or \
+                (rp and isinstance(op, (ast.Gt, ast.GtE))):
+            return True
+        return None
+    for nd in inst:
+        w = g.guarded_by(nd.id, bounded)
+        rep.check(w is None, 'C10.R22', key(fi, 'packet length is bounded'),
+                  'self._pktlen tested against an upper bound',
+                  'any length up to 0xffffffff is accepted: version line, '
+                  'then ff ff ff 00 and a stream of zeros - 253 MiB held '
+                  'and 1 s / 3.5 s / 16 s / 66 s of event-loop time for '
+                  'each doubling of the data, before key exchange',
+                  k.loc(fi, nd), g.describe_path(w) if w else None)
+
+
+SOFT_SIGNALS = {'BreakReceived', 'SignalReceived', 'TerminalSizeChanged'}
+
+
+def r23(k: Kit) -> None:
+    """Channel requests on an SFTP channel end that session at most."""
+    rep = k.rep
+    rep.rule('C10.R23', 'SFTPHandler.recv_packets: the handlers around the '
+             'receive loop also cover the exceptions the stream reader '
+             'raises for window-change / signal / break channel requests '
+             '(TerminalSizeChanged, SignalReceived, BreakReceived) - '
+             'uncaught they leave the task, the connection is dropped as '
+             'an internal error, SFTPServer.exit() is not called and open '
+             'files stay open')
+    fi = k.func('sftp.SFTPHandler.recv_packets')
+    tries = [t for t in ast.walk(fi.node) if isinstance(t, ast.Try)]
+    rep.floor('C10.R23', 'try statements in recv_packets', len(tries), 1)
+    caught: Set[str] = set()
+    for t in tries:
+        for h in t.handlers:
+            if h.type is None:
+                caught |= SOFT_SIGNALS
+                continue
+            ts = h.type.elts if isinstance(h.type, ast.Tuple) else [h.type]
+            for x in ts:
+                d = (dotted(x) or '').split('.')[-1]
+                caught.add(d)
+                if d in ('Exception', 'BaseException'):
+                    caught |= SOFT_SIGNALS
+    miss = sorted(SOFT_SIGNALS - caught)
+    rep.check(not miss, 'C10.R23', key(fi, 'soft signals handled'),
+              'TerminalSizeChanged, SignalReceived, BreakReceived caught',
+              f'{", ".join(miss)} not caught: a window-change request on '
+              'an sftp subsystem channel takes the whole connection down '
+              '(owner sees connection_lost(TerminalSizeChanged)), without '
+              'exit() and with the session\'s files left open',
+              fi.loc(fi.node))
+
+
+def r24(k: Kit) -> None:
+    """Reply bodies decoded by the caller are decoded under the guard."""
+    rep = k.rep
+    rep.rule('C10.R24', 'SFTPClientHandler: a reply packet that '
+             '_make_request hands back undecoded (extended replies) is '
+             'decoded - X.decode(packet), packet.get_*(), '
+             'packet.check_end() - inside a try whose handler turns '
+             'PacketDecodeError into SFTPBadMessage, as _make_request does '
+             'for the standard replies: a truncated statvfs / limits / '
+             'ranges body must reach the application as the documented '
+             'SFTPError')
+    n = 0
+    for fi in k.idx.iter_funcs(['sftp']):
+        if not fi.qual.startswith('sftp.SFTPClientHandler.') or \
+                fi.name.startswith('_process_') or fi.name in (
+                    'start', '_make_request'):
+            continue
+        uses_reply = any(is_call(c, '_make_request', 'self')
+                         for c in ast.walk(fi.node))
+        if not uses_reply:
+            continue
+
+        def visit(node, guarded):
+            nonlocal n
+            if isinstance(node, ast.Try):
+                g2 = guarded or any(
+                    h.type is None or any(
+                        (dotted(x) or '').split('.')[-1] in (
+                            'PacketDecodeError', 'Exception')
+                        for x in (h.type.elts if isinstance(
+                            h.type, ast.Tuple) else [h.type]))
+                    for h in node.handlers)
+                for st in node.body:
+                    visit(st, g2)
+                for part in (node.handlers, node.orelse, node.finalbody):
+                    for st in part:
+                        visit(st, guarded)
+                return
+            if isinstance(node, ast.Call):
+                dec = (isinstance(node.func, ast.Attribute) and
+                       dotted(node.func.value) == 'packet' and
+                       (node.func.attr.startswith('get_') or
+                        node.func.attr == 'check_end')) or (
+                    is_call(node, 'decode') and any(
+                        dotted(a) == 'packet' for a in node.args))
+                if dec:
+                    n += 1
+                    rep.check(guarded, 'C10.R24',
+                              key(fi, f'{norm(node)[:50]} under the guard'),
+                              'inside try ... except PacketDecodeError',
+                              f'`{norm(node)}` runs outside any '
+                              'PacketDecodeError handler: a server that '
+                              'answers statvfs@openssh.com with a '
+                              'truncated body makes sftp.statvfs() raise '
+                              'PacketDecodeError, which no caller of the '
+                              'SFTP API expects', fi.loc(node))
+            for ch in ast.iter_child_nodes(node):
+                if isinstance(ch, (ast.FunctionDef, ast.AsyncFunctionDef,
+                                   ast.Lambda)):
+                    continue
+                visit(ch, guarded)
+        for st in fi.node.body:
+            visit(st, False)
+    rep.floor('C10.R24', 'caller-side reply decodes', n, 6)
+
+
+def r25(k: Kit) -> None:
+    """Nesting depth of DER input ends in the documented error."""
+    rep = k.rep
+    rep.rule('C10.R25', 'asn1.der_decode_partial: the calls through which '
+             'the decoder recurses on nested content (cls.decode / '
+             'der_decode of the content octets) run under a handler that '
+             'turns RecursionError into ASN1DecodeError (or the function '
+             'carries and tests a depth bound): 5000 nested SEQUENCE '
+             'headers (20 kB) must make import_private_key / '
+             'import_certificate raise KeyImportError, not RecursionError')
+    fi = k.func('asn1.der_decode_partial')
+    params = {a.arg for a in fi.node.args.args + fi.node.args.kwonlyargs}
+    depth = any('depth' in p_ or 'level' in p_ for p_ in params)
+    n = 0
+
+    def visit(node, guarded):
+        nonlocal n
+        if isinstance(node, ast.Try):
+            g2 = guarded or any(
+                h.type is None or any(
+                    (dotted(x) or '') in ('RecursionError', 'RuntimeError',
+                                          'Exception')
+                    for x in (h.type.elts if isinstance(h.type, ast.Tuple)
+                              else [h.type]))
+                for h in node.handlers)
+            for st in node.body:
+                visit(st, g2)
+            for part in (node.handlers, node.orelse, node.finalbody):
+                for st in part:
+                    visit(st, guarded)
+            return
+        if isinstance(node, ast.Call) and (
+                is_call(node, 'der_decode') or
+                is_call(node, 'der_decode_partial') or
+                (is_call(node, 'decode') and
+                 dotted(node.func.value) == 'cls')):
+            n += 1
+            rep.check(guarded or depth, 'C10.R25',
+                      key(fi, f'{norm(node)[:40]} bounded'),
+                      'under except RecursionError / a depth bound',
+                      f'`{norm(node)}` recurses once per nesting level of '
+                      'the input with nothing between it and the '
+                      'interpreter\'s recursion limit: RecursionError '
+                      'escapes der_decode and every key / certificate '
+                      'import built on it', fi.loc(node))
+        for ch in ast.iter_child_nodes(node):
+            visit(ch, guarded)
+    for st in fi.node.body:
+        visit(st, False)
+    rep.floor('C10.R25', 'recursive decode calls', n, 2)
+
+
+def r26(k: Kit) -> None:
+    """A connection error reaches every reader, not only a blocked one."""
+    rep = k.rep
+    from ..index import parent
+    rep.rule('C10.R26', 'SSHStreamSession.connection_lost: when the channel '
+             'ends with an exception before EOF, the exception is queued '
+             'for every data type - the only conditions in front of the '
+             'append are "exc" and "EOF not yet received", not whether a '
+             'reader happens to be blocked: a reader that comes later must '
+             'not see a stream cut by a MAC error as a clean end of file')
+    fi = k.func('stream.SSHStreamSession.connection_lost')
+    apps = [c for c in ast.walk(fi.node) if is_call(c, 'append') and
+            c.args and dotted(c.args[0]) == 'exc']
+    rep.floor('C10.R26', 'error queued for readers', len(apps), 1)
+    for c in apps:
+        tests = []
+        x = c
+        while x is not None and x is not fi.node:
+            p_ = parent(x)
+            if isinstance(p_, ast.If) and x is not p_.test:
+                tests.append(p_.test)
+            x = p_
+        extra = [t for t in tests if not (
+            names_read(t) <= {'exc', 'self', 'self._eof_received'})]
+        rep.check(not extra, 'C10.R26',
+                  key(fi, 'error queued unconditionally'),
+                  'append(exc) under "exc" and "not EOF" only',
+                  f'the error is queued only `if {norm(extra[0]) if extra else ""}`: '
+                  'a reader that first awaits conn.wait_closed() (or is '
+                  'busy) gets the buffered data and then a normal EOF - a '
+                  'peer-forced truncation looks like an orderly end',
+                  fi.loc(c))
+
+
 def run(idx, rep, tier):
     k = Kit(idx, rep)
     rep.assumptions += NOT_DECIDED
@@ -1212,6 +1446,11 @@ def run(idx, rep, tier):
     r15(k)
     r16(k)
     r17(k)
+    r22(k)
+    r23(k)
+    r24(k)
+    r25(k)
+    r26(k)
     from .c12 import copy_loop_progress
     rep.rule('C10.R14', 'copy-data: the server\'s copy loop reaches its '
              'test again only after a read that returned data (= clause of '
